@@ -352,6 +352,9 @@ def main(argv=None):
                                          "executions": sum(r["executed"] for r in fz), "shards": len(fz),
                                          "instrumented_functions": max(r.get("instrumented_functions", 0) for r in fz),
                                          "steps": sum(r.get("steps", 0) for r in fz)}
+            if sum(r["executed"] for r in fz) < 5 * len(fz) and not any(r.get("violations") for r in fz):
+                harness.append(f"{sub.name}: the libFuzzer driver executed only {sum(r['executed'] for r in fz)} histories in "
+                               f"{len(fz)} shards (buffers rejected by the strategy?)")
         if rs[0]["mode"] in ("machine", "fuzz"):
             subs_ev[sub.name]["steps"] = sum(r.get("steps", 0) for r in rs)
             subs_ev[sub.name]["step_rejects"] = sum(r.get("step_rejects", 0) for r in rs)
